@@ -6,12 +6,13 @@ sys.path.insert(0, VERIF)
 os.chdir(VERIF)
 props = [json.loads(l) for l in open("properties.jsonl")]
 NA_REASON = json.load(open("tools/not_applicable.json"))
+READY = set(json.load(open("tools/ready.json")))
 checks, na = [], []
 served = []
 for p in props:
     pid = p["id"]
     f = f"props/{pid.lower()}.py"
-    if os.path.exists(f) and pid not in NA_REASON:
+    if os.path.exists(f) and pid not in NA_REASON and pid in READY:
         m = importlib.import_module(f"props.{pid.lower()}")
         served.append(pid)
         checks.append(dict(
